@@ -252,6 +252,16 @@ func runC07(c *Ctx) {
 							guarded = true
 						}
 					}
+					// … or an error made on the spot (fmt.Errorf/errors.New never return nil)
+					made := true
+					for _, x := range Roots(v1) {
+						if CallResult(x, 0, "fmt.Errorf", "errors.New") == nil {
+							made = false
+						}
+					}
+					if made && len(Roots(v1)) > 0 {
+						guarded = true
+					}
 					if !guarded {
 						bad = "the return at " + p.Pos(r.Pos()) + " can hand back a nil response together with an error value that does not come from the client.Do call (" + PathOf(v1) + ")"
 					}
